@@ -196,4 +196,28 @@ theorem Sem_discard (t : Option Ty) : Sem (Codegen.discard t) 0 (-(xOf t)) 0 := 
 
 theorem Sem_loc (i : NInfo) : Sem (loc i) 0 0 0 := by unfold loc; exact Sem_emit rfl
 
+
+/-! ### branching helpers -/
+
+theorem Sem_bind0 {m : M α} {f : α → M β} (h1 : Sem m 0 0 0) (h2 : ∀ a, Sem (f a) r x d) :
+    Sem (m >>= f) r x d :=
+  (Sem_bind h1 h2).cast (by omega) (by omega) (by omega)
+
+/-- `let t ← needTy w ty?; f t`: the continuation sees the type that was passed -/
+theorem Sem_needTy_bind {w : String} {ty? : Option Ty} {f : Ty → M β}
+    (h : ∀ t, ty? = some t → Sem (f t) r x d) : Sem (needTy w ty? >>= f) r x d := by
+  refine (Sem_bind' (Sem_needTy w ty?) (fun a s s' l hm => h a (needTy_eq hm))).cast ?_ ?_ ?_ <;> omega
+
+theorem Sem_needVar_bind {w : String} {v? : Option Var} {f : Var → M β}
+    (h : ∀ v, v? = some v → Sem (f v) r x d) : Sem (needVar w v? >>= f) r x d := by
+  cases v? with
+  | none =>
+    intro s b s' ls hm
+    simp [bind, M.bind, needVar, nullDeref, fail] at hm
+  | some v =>
+    refine (Sem_bind (Sem_needVar w (some v)) (fun a => ?_)).cast (r := 0 + r) (x := 0 + x) (d := 0 + d) ?_ ?_ ?_
+    · intro s b s' ls hm
+      sorry
+    all_goals omega
+
 end ChibiVerif.Lemmas.C20
